@@ -65,6 +65,8 @@ def gen_for(pid, rng, tier):
             spec["evalmon"] = False
         if rng.random() < 0.2:
             spec["stepmon"] = rng.choice([2.0, 0.5, 4.0, -1.0, -2.0])      # a step monitor with a cost multiplier k
+        if rng.random() < 0.15:
+            spec["callback"] = "falsy"      # a callable OBJECT whose truth value is False (an empty recorder): still a callback
     else:
         spec = solvergen.gen_spec(rng, maxdim=maxdim, nsteps=nsteps, flavour=rng.choice(["ops", "ops", "steps", "solve"]))
         if rng.random() < 0.5:
